@@ -57,7 +57,13 @@ def alphabet():
     A.append({"fn": "format", "tree": {"select": {"value": {"add": ["a", {"$i": "1"}]}}, "from": "order"}})
     A.append({"fn": "format", "tree": {"select": {"value": "a"}, "from": "t"}, "kw": {"ansi_quotes": False}})
     A.append({"fn": "format", "tree": {"nonsense": {"$i": "1"}}})
+    # the same names under both quoting styles (a per-name memo must not outlive the call's options)
+    A.append({"fn": "format", "tree": QTREE})
+    A.append({"fn": "format", "tree": QTREE, "kw": {"ansi_quotes": False}})
     return A
+
+
+QTREE = {"select": [{"value": "order"}, {"value": "t.a", "name": "my col"}], "from": {"value": "group", "name": "t"}, "where": {"eq": ["select", {"$i": "1"}]}}
 
 
 # ---- probes: sensitive to every piece of leaked state
@@ -67,6 +73,10 @@ def probes():
         P.append(("default:" + fn, call(fn, "select f(null), sum(x), a is null from t")))
         P.append(("dq:" + fn, call(fn, 'select "a" from "t"')))
         P.append(("ddl-dq:" + fn, call(fn, 'create table t (a varchar(5) default "x")')))
+        # quoted text INSIDE a column type (generated-column expression, ENUM list, STRUCT member default)
+        P.append(("ddl-type-dq:" + fn, call(fn, 'create table t (a varchar(9), b varchar(9) as (concat(a, "x")), c enum("x", "y"), d struct<e int default "z">, f as ([a] + 1))')))
+        P.append(("ddl-gen-dq:" + fn, call(fn, 'create table t (a varchar(9), b varchar(9) as (concat(a, "x")))')))
+        P.append(("ddl-enum-dq:" + fn, call(fn, 'create table t (c enum("x", "y"))')))
         P.append(("star:" + fn, call(fn, "select * from t")))
         P.append(("star-old:" + fn, call(fn, "select * from t", all_columns="*")))
         P.append(("bracket:" + fn, call(fn, "select [a] from t")))
@@ -81,6 +91,8 @@ def probes():
     P.append(("fmap:parse", call("parse", "select sum(a) from t", fmap={"sum": "plus"})))
     P.append(("format", {"fn": "format", "tree": {"select": {"value": {"mul": [{"add": ["a", "b"]}, "c"]}}, "from": "select"}}))
     P.append(("script:parse", call("parse", "select 1; select f(null)")))
+    P.append(("format-names", {"fn": "format", "tree": QTREE}))
+    P.append(("format-names-backtick", {"fn": "format", "tree": QTREE, "kw": {"ansi_quotes": False}}))
     return P
 
 
@@ -156,7 +168,8 @@ def run(ctx, scale=1):
         return {"fn": "graphsig", "entry": k[0], "all_columns": k[1]}
 
     fresh_sig = dict(zip(keys, pmap(lambda k: run_history([sig_call(k)])[0].get("ok"), keys)))
-    orders = [([a], b) for a, b in pairs] + [([x for x in keys if x != b], b) for b in keys]
+    # … and a parser already built must not change when another one is built after it (history a, b — then a's graph)
+    orders = [([a], b) for a, b in pairs] + [([x for x in keys if x != b], b) for b in keys] + [([a, b], a) for a, b in pairs]
     sigs = pmap(lambda ob: run_history([mk(a) for a in ob[0]] + [sig_call(ob[1])])[-1].get("ok"), orders)
     for (before, b), sg in zip(orders, sigs):
         rep.count("graph_signature", "after-%d" % len(before))
@@ -174,7 +187,9 @@ def run(ctx, scale=1):
             if len(parts) > 2 and parts[2] and parts[2] not in words:
                 words.append(parts[2])
         found = None
-        for w in words[:12]:
+        searched = getattr(run, "_searched", 0)
+        run._searched = searched + 1
+        for w in (words[:4] if searched < 2 else []):
             for tpl in ("select a {w} b from t", "select a from t where a {w} 1", "select {w} a from t", "select a from t {w}", "select a {w} from t", "{w} select 1"):
                 pc = call(b[0], tpl.format(w=w), **({"all_columns": b[1]} if b[1] else {}))
                 alone = C.cdump(run_history([pc])[0])
